@@ -1,12 +1,17 @@
 (* Proofs_Exec2.v — theorems stated directly about the functions of Exec.v that are RUN in the
    correspondence check: do_enddef (new file and after a redefinition), do_close, do_open.
 
-     A  small world lemmas (get_disk / set_disk / put_file / zupd / znth)
+     A  small world lemmas: get_disk_set_disk_same/other, znth_zupd_same/other, w_files_set_disk,
+        znth_put_file_same/other, get_disk_put_file, first_free_*, store_file
      B  do_enddef_new_eq, do_enddef_new_inv     exact unfolding of do_enddef on a NEW file
      C  enddef_writes_header                    the first enddef leaves the encoded header on disk
-     D  close_open_same_header, enddef_close_open
-     E  redef_enddef_disk, redef_enddef_preserves   (C06 at interpreter level)
-     F  Examples on a concrete world built with exec_all
+                                                (the fill does not overwrite it); hdr_on_disk
+     D  do_close_data_eq, do_open_eq, close_open_same_header, reopened_layout, enddef_close_open
+     E  redef_enddef_disk, redef_enddef_inv     exact unfolding of do_enddef after a redef
+        redef_enddef_preserves(_gen,_fixed)     C06 at interpreter level: move + header + fill
+        redef_enddef_run_preserves              the same from "do_enddef ... = Some (w', NC_NOERR)"
+     F  Examples: a session run with exec_all (2 ranks, CDF-1, unlimited dim, fill and no-fill
+        variables, puts, redef with new fixed and record variables, close, open)
 
    No model definition is modified. *)
 From Pnc Require Import Base Gen_consts Header HeaderSpec Disk Move Fill Exec.
@@ -1004,15 +1009,114 @@ Proof.
     + rewrite !znth_cons_pos by exact E. apply IH; [exact Hl|lia].
 Qed.
 
+(* ---------- the slot of a record variable inside a record ---------- *)
+Definition dt3 : bool * Z * Z := (false, 0, 0).
+
+Lemma last_opt_none_nil : forall A (l : list A), last_opt l = None -> l = [].
+Proof.
+  intros A l H. unfold last_opt in H. destruct (rev l) as [|x r] eqn:E; [|discriminate H].
+  apply (f_equal (@rev A)) in E. rewrite rev_involutive in E. exact E.
+Qed.
+
+Lemma last_filter_split : forall A (p : A -> bool) l x, last_opt (filter p l) = Some x ->
+  exists a b, l = a ++ x :: b /\ filter p b = [] /\ p x = true.
+Proof.
+  intros A p l. induction l as [|y l IH]; intros x H; [discriminate H|].
+  cbn [filter] in H. destruct (p y) eqn:Ey.
+  - rewrite last_opt_cons in H. destruct (last_opt (filter p l)) as [z|] eqn:El.
+    + injection H as ->. destruct (IH x eq_refl) as (a & b & E1 & E2 & E3).
+      exists (y :: a), b. rewrite E1. split; [reflexivity|split; assumption].
+    + injection H as ->. exists [], l. split; [reflexivity|]. split; [|exact Ey].
+      apply last_opt_none_nil. exact El.
+  - destruct (IH x H) as (a & b & E1 & E2 & E3).
+    exists (y :: a), b. rewrite E1. split; [reflexivity|split; assumption].
+Qed.
+
+Lemma roff_full : forall vs, roff vs (Zlen vs) = rsum vs.
+Proof.
+  intros vs. unfold roff. pose proof (zfirstn_app_exact vs []) as H. rewrite app_nil_r in H.
+  rewrite H. reflexivity.
+Qed.
+
+Lemma roff_nonneg : forall vs i, Forall (fun p : bool * Z => 0 <= snd p) vs -> 0 <= roff vs i.
+Proof.
+  induction vs as [|[k len] r IH]; intros i H; [unfold roff; cbn [zfirstn rsum]; lia|].
+  inversion H as [|? ? Hp Hr]; subst. cbn [snd] in Hp.
+  destruct (Z_le_gt_dec i 0) as [Hi|Hi].
+  - unfold roff. cbn [zfirstn]. replace (i <=? 0) with true by lia. cbn [rsum]. lia.
+  - rewrite roff_cons_pos by lia. cbn [fst snd]. specialize (IH (i - 1) Hr). destruct k; lia.
+Qed.
+
+Lemma roff_ge_app : forall vo ext j, Forall (fun p : bool * Z => 0 <= snd p) ext ->
+  Zlen vo <= j -> rsum vo <= roff (vo ++ ext) j.
+Proof.
+  induction vo as [|[k len] r IH]; intros ext j Hnn Hj.
+  - cbn [app rsum]. apply roff_nonneg. exact Hnn.
+  - rewrite Zlen_cons in Hj. pose proof (Zlen_nonneg r). cbn [app].
+    rewrite roff_cons_pos by lia. cbn [fst snd rsum].
+    specialize (IH ext (j - 1) Hnn ltac:(lia)). destruct k; lia.
+Qed.
+
+Lemma znth_t3_vs : forall (t3 : list (bool * Z * Z)) j, 0 <= j < Zlen t3 ->
+  znth (map fst t3) j dvs = fst (znth t3 j dt3).
+Proof. intros t3 j Hj. exact (znth_map_in _ _ fst t3 j dt3 dvs Hj). Qed.
+
+(** the slot of every record variable lies inside the record, whichever branch of the recsize
+    rule applies (with a single non-empty record variable the record is its unpadded size) *)
+Lemma rec_slot_fits : forall (t3 : list (bool * Z * Z)) j, wf_t3 t3 -> 0 <= j < Zlen t3 ->
+  fst (fst (znth t3 j dt3)) = true ->
+  roff (map fst t3) j + snd (znth t3 j dt3) <= rs_rule t3.
+Proof.
+  intros t3 j Hwf Hj Hk.
+  destruct (wf_t3_lens t3 Hwf) as [Hnn _].
+  assert (Hwj : 0 <= snd (znth t3 j dt3) <= snd (fst (znth t3 j dt3))).
+  { unfold wf_t3 in Hwf. rewrite (Forall_znth _ t3 dt3) in Hwf. exact (proj1 (Hwf j Hj)). }
+  destruct (roff_bounds (map fst t3) j Hnn ltac:(rewrite Zlen_map; exact Hj)) as [Hr0 Hr1].
+  rewrite (znth_t3_vs t3 j Hj) in Hr1. specialize (Hr1 Hk).
+  unfold rs_rule.
+  destruct (last_opt (filter (fun t : bool * Z * Z => fst (fst t)) t3)) as [[[k ll] u]|] eqn:El; [|lia].
+  destruct (Z.eqb_spec (rsum (map fst t3)) ll) as [Es|Es]; [|lia].
+  destruct (last_filter_split _ _ _ _ El) as (a & b & E & Hb & Hkl). cbn [fst] in Hkl. subst k.
+  subst t3.
+  assert (Hwa : wf_t3 a /\ wf_t3 ((true, ll, u) :: b)) by (apply wf_t3_app; exact Hwf).
+  destruct Hwa as [Hwa Hwb]. pose proof (Forall_inv Hwb) as Hwl. cbn [fst snd] in Hwl.
+  destruct (wf_t3_lens a Hwa) as [Hna _].
+  assert (Esum : rsum (map fst a) = 0).
+  { rewrite map_app, rsum_app in Es. cbn [map fst rsum] in Es. rewrite (rsum_no_rec b Hb) in Es. lia. }
+  pose proof (Zlen_nonneg a) as Ha0.
+  rewrite map_app. cbn [map fst].
+  destruct (Z_lt_ge_dec j (Zlen a)) as [Hlt|Hge].
+  - (* before the last record variable: an empty record variable at offset 0 *)
+    rewrite roff_app_l by (rewrite Zlen_map; lia).
+    destruct (roff_bounds (map fst a) j Hna ltac:(rewrite Zlen_map; lia)) as [Ra0 Ra1].
+    rewrite (znth_t3_vs a j ltac:(lia)) in Ra1.
+    rewrite znth_app_l in Hk, Hwj |- * by lia. specialize (Ra1 Hk). lia.
+  - destruct (Z.eq_dec j (Zlen a)) as [Ej|Ej].
+    + (* the last record variable itself *)
+      subst j. rewrite roff_app_l by (rewrite Zlen_map; lia).
+      replace (Zlen a) with (Zlen (map fst a)) at 1 by apply Zlen_map.
+      rewrite roff_full, Esum. rewrite znth_app_r by lia.
+      replace (Zlen a - Zlen a) with 0 by lia. rewrite znth_cons_0. cbn [snd]. lia.
+    + (* after it: no record variable *)
+      exfalso. rewrite znth_app_r in Hk by lia. rewrite Zlen_app, Zlen_cons in Hj.
+      rewrite znth_cons_pos in Hk by lia.
+      assert (Hin : In (znth b (j - Zlen a - 1) dt3) (filter (fun t : bool * Z * Z => fst (fst t)) b)).
+      { apply filter_In. split; [apply Proofs_Disk.znth_In; lia|exact Hk]. }
+      rewrite Hb in Hin. destruct Hin.
+Qed.
+
 (* what is known of a variable defined during the redefinition, read in the header kept by
-   enddef: its index, begin, kind, len, and that its fill extent fits in its len *)
+   enddef: its index, begin, kind, len, and the size of what the fill may write *)
 Lemma new_var_facts : forall h bl n nold v,
   length bl = length (h_vars h) -> 0 <= nold ->
   In v (zskipn nold (h_vars (set_numrecs (set_begins h bl) n))) ->
   exists j, nold <= j < Zlen (h_vars h) /\
     v_begin v = znth bl j 0 /\
-    is_recvar (h_dims h) v = fst (znth (vsof h) j dvs) /\
-    nelems (set_numrecs (set_begins h bl) n) v * vxsz v <= snd (znth (vsof h) j dvs).
+    znth (t3of h) j dt3 =
+      (is_recvar (h_dims h) v, var_len (h_dims h) v,
+       nelems (set_numrecs (set_begins h bl) n) v * vxsz v) /\
+    znth (vsof h) j dvs = (is_recvar (h_dims h) v, var_len (h_dims h) v) /\
+    nelems (set_numrecs (set_begins h bl) n) v * vxsz v <= var_len (h_dims h) v.
 Proof.
   intros h bl n nold v Hl Hn Hin.
   change (h_vars (set_numrecs (set_begins h bl) n)) with (h_vars (set_begins h bl)) in Hin.
@@ -1021,11 +1125,13 @@ Proof.
   rewrite znth_zskipn in Ek by lia.
   exists (nold + k). split; [lia|].
   rewrite (znth_set_begins h bl (nold + k) Hl ltac:(lia)) in Ek.
-  rewrite (znth_vsof h (nold + k) ltac:(lia)). cbn [fst snd].
-  subst v. split; [reflexivity|]. split; [reflexivity|].
+  rewrite (znth_vsof h (nold + k) ltac:(lia)).
+  unfold t3of.
+  rewrite (znth_map_in _ _ (fun v0 => (is_recvar (h_dims h) v0, var_len (h_dims h) v0, unpadded (h_dims h) v0))
+             (h_vars h) (nold + k) dv dt3 ltac:(lia)).
   pose proof (var_len_unpadded (h_dims h) (znth (h_vars h) (nold + k) dv)) as Hu.
-  unfold unpadded in Hu. unfold nelems, vxsz. cbn [h_dims set_numrecs set_begins v_dimids v_type].
-  unfold var_shape in *. cbn [v_dimids]. lia.
+  subst v. split; [reflexivity|]. split; [reflexivity|]. split; [reflexivity|].
+  exact (proj1 (proj1 Hu)).
 Qed.
 
 Section RedefExec.
@@ -1116,8 +1222,10 @@ Section RedefExec.
     { rewrite Hlen. unfold vsof. apply map_length. }
     fold nold in Fz, Fn, Ff.
     pose proof (Zlen_nonneg (h_vars oh)) as Hn0. fold nold in Hn0.
-    destruct (new_var_facts h (l_begins lay) numrecs nold v Hlen' Hn0 Hv) as (j & Hj & Eb & Ek & Eu).
-    fold h1 in Eu.
+    destruct (new_var_facts h (l_begins lay) numrecs nold v Hlen' Hn0 Hv) as (j & Hj & Eb & _ & Ev & Eu).
+    fold h1 in Eu. assert (Ek : is_recvar (h_dims h) v = fst (znth (vsof h) j dvs)) by (rewrite Ev; reflexivity).
+    assert (Elj : var_len (h_dims h) v = snd (znth (vsof h) j dvs)) by (rewrite Ev; reflexivity).
+    clear Ev.
     specialize (Ff i Hi). specialize (Fz i Hi).
     rewrite (znth_vsof oh i Hi) in Ff, Fz. cbn [fst snd] in Ff.
     specialize (Ff Hk). destruct Ff as (F1 & F2 & F3 & F4 & F5 & F6).
@@ -1148,7 +1256,246 @@ Section RedefExec.
     intros i Hi Hk o Ho.
     exact (proj1 (redef_enddef_preserves_gen i Hi) Hk o Ho (fill_misses_old_fixed i o Hi Hk Ho)).
   Qed.
+  (** ... and every byte of every old RECORD variable, in every existing record: new fixed
+      variables end at or before begin_rec; a new record variable occupies, in each record, a
+      slot after the slots of all the old record variables and inside the record *)
+  Lemma fill_misses_old_rec : forall i r o, 0 <= i < nold ->
+    is_recvar (h_dims oh) (znth (h_vars oh) i dv) = true ->
+    0 <= r -> 0 <= o < var_len (h_dims oh) (znth (h_vars oh) i dv) ->
+    (znth (l_begins ol) i 0 - l_begin_rec ol) + o < l_recsize ol ->
+    fill_misses (znth (l_begins lay) i 0 + r * l_recsize lay + o).
+  Proof.
+    intros i r o Hi Hk Hr Ho Hin v Hv Hfm. split; [symmetry; exact (fill_len_ok v Hv Hfm)|].
+    unfold in_fill_extent. rewrite (fill_len_ok v Hv Hfm).
+    destruct Facts as (Fz & Fn & Ff & Fo & Fr & Fx & Fvr & Fbv & Fbr & Frs0 & Frs & Frsum & Fsame).
+    destruct Hinv' as (Hlen & Hx & Hbi & Hbv & Hle & Hbr4 & Hc & Hrs).
+    rewrite <- vsof_t3of in Hlen, Hbi, Hle, Hc.
+    pose proof (wf_t3of h Hwf) as Hw3.
+    destruct (wf_t3_lens _ Hw3) as [Hnn _]. rewrite <- vsof_t3of in Hnn.
+    assert (Hlen' : length (l_begins lay) = length (h_vars h)).
+    { rewrite Hlen. unfold vsof. apply map_length. }
+    fold nold in Fz, Fn, Fr.
+    pose proof (Zlen_nonneg (h_vars oh)) as Hn0. fold nold in Hn0.
+    destruct (new_var_facts h (l_begins lay) numrecs nold v Hlen' Hn0 Hv) as (j & Hj & Eb & Et & Ev & Eu).
+    change (set_numrecs (set_begins h (l_begins lay)) numrecs) with h1 in Eu, Et.
+    assert (Ek : is_recvar (h_dims h) v = fst (znth (vsof h) j dvs)) by (rewrite Ev; reflexivity).
+    assert (Elj : var_len (h_dims h) v = snd (znth (vsof h) j dvs)) by (rewrite Ev; reflexivity).
+    specialize (Fr i Hi). rewrite (znth_vsof oh i Hi) in Fr. cbn [fst snd] in Fr.
+    destruct (Fr Hk) as (R1 & R2 & R3 & R4).
+    assert (Evs : Zlen (vsof h) = Zlen (h_vars h)) by (unfold vsof; apply Zlen_map).
+    set (R := l_recsize lay) in *. set (U := nelems h1 v * vxsz v) in *.
+    change (h_dims h1) with (h_dims h). rewrite Ek.
+    destruct (fst (znth (vsof h) j dvs)) eqn:Ekj.
+    - (* new record variable *)
+      intros (recno & Hrn & Hlo & Hhi).
+      pose proof (contig_sel_index (vsof h) (l_begins lay) (l_begin_rec lay) Hlen Hc j ltac:(lia) Ekj) as Enb.
+      assert (Hge : rsum (vsof oh) <= roff (vsof h) j).
+      { destruct Hext as [ext3 He].
+        assert (Evh : vsof h = vsof oh ++ map fst ext3).
+        { rewrite !vsof_t3of, He. apply map_app. }
+        rewrite Evh in Hnn |- *. apply roff_ge_app; [exact (proj2 (proj1 (Forall_app _ _ _) Hnn))|].
+        unfold vsof at 1. rewrite Zlen_map. fold nold. lia. }
+      pose proof (rec_slot_fits (t3of h) j Hw3 ltac:(unfold t3of; rewrite Zlen_map; lia)) as Hfit.
+      rewrite Et in Hfit. cbn [fst snd] in Hfit. rewrite Ek in Hfit. specialize (Hfit eq_refl).
+      rewrite <- vsof_t3of, <- Hrs in Hfit. fold U in Hfit.
+      set (a := roff (vsof oh) i) in *. set (b := roff (vsof h) j) in *.
+      assert (A1 : b + R * recno <= a + o + r * R) by lia.
+      assert (A2 : a + o + r * R < b + R * recno + U) by lia.
+      assert (A3 : a + o < R) by lia.
+      assert (A4 : a + o < b) by lia.
+      assert (A5 : 0 <= R) by lia.
+      assert (A6 : 0 <= a + o) by lia.
+      clear - A1 A2 A3 A4 A5 A6 Hfit Hr Hrn.
+      destruct (Z.lt_trichotomy r recno) as [Hc1|[Hc1|Hc1]].
+      + assert (0 <= R * (recno - r - 1)) by nia. lia.
+      + subst r. lia.
+      + assert (0 <= R * (r - recno - 1)) by nia. lia.
+    - (* new fixed variable: ends at or before begin_rec *)
+      intros [Hlo Hhi].
+      destruct (bi_sel_index false (vsof h) (l_begins lay) (l_begin_var lay) Hlen Hnn Hbi) as [B1 _].
+      destruct (B1 j ltac:(lia) Ekj) as (_ & _ & B).
+      assert (0 <= r * R) by nia. lia.
+  Qed.
+
+  (** E2.  After ncmpi_redef + new definitions + ncmpi_enddef as the interpreter runs it
+      (data movement, header write, fill of the new fill-mode variables), every byte of every
+      old variable is found at its new place with its old value. *)
+  Theorem redef_enddef_preserves :
+    forall i, 0 <= i < nold ->
+      let ov := znth (h_vars oh) i dv in
+      let len := var_len (h_dims oh) ov in
+      let ob := znth (l_begins ol) i 0 in
+      let nb := znth (l_begins lay) i 0 in
+      (is_recvar (h_dims oh) ov = false ->
+         forall o, 0 <= o < len -> dk_get d3 (nb + o) = dk_get d0 (ob + o)) /\
+      (is_recvar (h_dims oh) ov = true ->
+         nb - l_begin_rec lay = ob - l_begin_rec ol /\
+         forall r o, 0 <= r < numrecs -> 0 <= o < len ->
+           (ob - l_begin_rec ol) + o < l_recsize ol ->
+           dk_get d3 (nb + r * l_recsize lay + o) = dk_get d0 (ob + r * l_recsize ol + o)).
+  Proof.
+    intros i Hi ov len ob nb. destruct (redef_enddef_preserves_gen i Hi) as [P1 P2]. split.
+    - intros Hk o Ho. exact (P1 Hk o Ho (fill_misses_old_fixed i o Hi Hk Ho)).
+    - intros Hk. destruct (P2 Hk) as [Q1 Q2]. split; [exact Q1|].
+      intros r o Hr Ho Hin. apply (Q2 r o Hr Ho Hin).
+      apply fill_misses_old_rec; try assumption. lia.
+  Qed.
 End RedefExec.
+
+(* ---------- the fill value has the size of one element ---------- *)
+Lemma Zlen_be_bytes : forall n x, Zlen (be_bytes n x) = Z.of_nat n.
+Proof.
+  induction n as [|n IH]; intros x; cbn [be_bytes]; [reflexivity|].
+  rewrite Zlen_app, IH, Zlen_cons, Zlen_nil. lia.
+Qed.
+
+Lemma Zlen_fill_bytes_xlen : forall t, Zlen (fill_bytes t) = xlen_type t.
+Proof.
+  intros t. unfold fill_bytes. cbv zeta. rewrite Zlen_be_bytes.
+  pose proof (xlen_type_nonneg t). lia.
+Qed.
+
+Lemma find_index_bounds : forall A (p : A -> bool) l k i,
+  find_index p l k = Some i -> k <= i < k + Zlen l.
+Proof.
+  intros A p l. induction l as [|x l IH]; intros k i H; cbn [find_index] in H; [discriminate H|].
+  rewrite Zlen_cons. pose proof (Zlen_nonneg l).
+  destruct (p x); [injection H as H; lia|]. specialize (IH _ _ H). lia.
+Qed.
+
+(** a fill-mode variable that passes the guard of do_enddef and is encodable has a fill value of
+    exactly one element *)
+Lemma fill_len_of_guard : forall fmt v, wf_var fmt v = true ->
+  v_nofill v || fill_att_ok v = true -> v_nofill v = false ->
+  Zlen (var_fill_bytes v) = vxsz v.
+Proof.
+  intros fmt v Hwf Hg Hnf. rewrite Hnf in Hg. cbn [orb] in Hg.
+  unfold var_fill_bytes, fill_att_ok, vxsz in *.
+  destruct (find_att (v_atts v) fillvalue_name) as [i|] eqn:Ef; [|apply Zlen_fill_bytes_xlen].
+  unfold find_att in Ef. apply find_index_bounds in Ef.
+  unfold wf_var in Hwf. rewrite !andb_true_iff in Hwf.
+  destruct Hwf as [[[_ Hatts] _] _].
+  apply forallb_Forall in Hatts. rewrite (Forall_znth _ (v_atts v) (mkatt [] 0 0 [])) in Hatts.
+  specialize (Hatts i ltac:(lia)). unfold wf_att in Hatts. rewrite !andb_true_iff in Hatts.
+  destruct Hatts as [_ Hd]. cbv zeta in Hg. rewrite andb_true_iff in Hg. destruct Hg as [G1 G2].
+  apply Z.eqb_eq in G1, G2, Hd. rewrite G1, G2 in Hd. unfold byte in *. lia.
+Qed.
+
+Lemma fill_len_ok_of_guard : forall h1 sv, wf_hdr h1 = true -> fill_guard sv h1 = true ->
+  forall v, In v (zskipn sv (h_vars h1)) -> v_nofill v = false -> Zlen (var_fill_bytes v) = vxsz v.
+Proof.
+  intros h1 sv Hwf Hg v Hin Hnf.
+  unfold fill_guard in Hg. rewrite forallb_forall in Hg. specialize (Hg v Hin).
+  assert (Hv : In v (h_vars h1)).
+  { rewrite <- (zfirstn_zskipn sv (h_vars h1)). apply in_or_app. right. exact Hin. }
+  unfold wf_hdr in Hwf. cbv zeta in Hwf. rewrite !andb_true_iff in Hwf. destruct Hwf as [_ Hvars].
+  rewrite forallb_forall in Hvars. exact (fill_len_of_guard _ v (Hvars v Hv) Hg Hnf).
+Qed.
+
+(** E3.  The statement about the interpreter run: a successful do_enddef after a redefinition
+    (old header oh, old layout ol satisfying the layout invariant, the new header extending the
+    old one) preserves every byte of every old variable, whatever the number of processes, the
+    move unit, the alignment hints and arguments, and the fill modes of the new variables. *)
+Theorem redef_enddef_run_preserves : forall w id f ea oh ol w',
+  f_indef f = true -> f_old f = Some (oh, ol) -> l_begin_rec (f_lay f) = l_begin_rec ol ->
+  hdr_wf (f_hdr f) ->
+  0 <= env_h_align (f_align f) -> 0 <= env_v_align (f_align f) -> 0 <= env_r_align (f_align f) ->
+  lay_inv (t3of oh) ol -> hdr_extends oh (f_hdr f) ->
+  1 <= w_nprocs w -> 1 <= w_move_unit w -> 0 <= enddef_numrecs f ->
+  0 <= f_slot f < Zlen (w_disks w) -> 0 <= id < Zlen (w_files w) ->
+  do_enddef w id f ea = Some (w', NC_NOERR) ->
+  exists lay,
+    znth (w_files w') id None = Some (enddef_file f lay) /\
+    lay_inv (t3of (f_hdr f)) lay /\
+    (wf_hdr (enddef_hdr f lay) = true ->
+     let d0 := get_disk w (f_slot f) in
+     let d3 := get_disk w' (f_slot f) in
+     hdr_on_disk w' (enddef_file f lay) /\
+     forall i, 0 <= i < Zlen (h_vars oh) ->
+       let ov := znth (h_vars oh) i dv in
+       let len := var_len (h_dims oh) ov in
+       let ob := znth (l_begins ol) i 0 in
+       let nb := znth (l_begins lay) i 0 in
+       (is_recvar (h_dims oh) ov = false ->
+          forall o, 0 <= o < len -> dk_get d3 (nb + o) = dk_get d0 (ob + o)) /\
+       (is_recvar (h_dims oh) ov = true ->
+          nb - l_begin_rec lay = ob - l_begin_rec ol /\
+          forall r o, 0 <= r < enddef_numrecs f -> 0 <= o < len ->
+            (ob - l_begin_rec ol) + o < l_recsize ol ->
+            dk_get d3 (nb + r * l_recsize lay + o) = dk_get d0 (ob + r * l_recsize ol + o))).
+Proof.
+  intros w id f ea oh ol w' Hindef Hold Hbr Hwf Hah Hav Har Hinv Hext Hnp Hu Hnr Hslot Hid Hed.
+  destruct (redef_enddef_inv w id f ea oh ol w' Hindef Hold Hed)
+    as (ha & va & ra & lay & Hargs & Hvl & Hal & Hbeg & Hg & Ew).
+  destruct Hargs as (A1 & A2 & A3 & A4).
+  destruct (resolve_align_ok (f_align f) ea _ false ha va ra Hah Hav Har A2 A4 Hal)
+    as ((Hha & Hha4) & _ & (Hra & Hra4)).
+  rewrite Hbr in Hbeg.
+  exists lay.
+  assert (Ed : get_disk w' (f_slot f) = enddef_redef_disk w f oh ol lay).
+  { rewrite Ew. apply get_disk_put_set_same. exact Hslot. }
+  split; [rewrite Ew; apply znth_put_set_same; exact Hid|].
+  split. { exact (begins_lay_inv_redef oh (f_hdr f) ol lay _ _ ha ra Hwf A1 A3 ltac:(lia) Hra Hra4 Hinv Hext Hbeg). }
+  intros Hwfh. cbv zeta. rewrite Ed.
+  pose proof (fill_len_ok_of_guard (enddef_hdr f lay) (Zlen (h_vars oh)) Hwfh Hg) as Hfl.
+  split.
+  2:{ intros i Hi.
+      exact (redef_enddef_preserves w f oh ol lay _ _ ha ra Hwf A1 A3 ltac:(lia) Hra Hra4 Hinv Hext Hbeg
+               Hnp Hu Hnr Hwfh Hfl i Hi). }
+  (* the new header is on disk: the fill lies above begin_var *)
+  destruct (new_header_fits oh (f_hdr f) ol lay _ _ ha ra (enddef_numrecs f) Hwf A1 A3 ltac:(lia) Hra Hra4
+              Hinv Hext Hbeg Hwfh) as [Eenc Hfit].
+  change (new_header (f_hdr f) lay (enddef_numrecs f)) with (enddef_hdr f lay) in Eenc.
+  pose proof (hdr_len_encode _ Hwfh) as Hl. pose proof (Zlen_encode_header_pos (enddef_hdr f lay)) as Hp.
+  unfold hdr_on_disk, disk_of. change (f_slot (enddef_file f lay)) with (f_slot f).
+  change (f_hdr (enddef_file f lay)) with (enddef_hdr f lay). rewrite Ed.
+  set (d2 := enddef_disk (get_disk w (f_slot f)) (w_nprocs w) (w_move_unit w) (enddef_numrecs f) oh
+                         (f_hdr f) ol lay).
+  assert (W1 : dk_exists d2 = true).
+  { unfold d2, enddef_disk. rewrite dk_exists_write.
+    change (new_header (f_hdr f) lay (enddef_numrecs f)) with (enddef_hdr f lay).
+    replace (0 <? Zlen (encode_header (enddef_hdr f lay))) with true by lia. reflexivity. }
+  assert (W2 : hdr_len (enddef_hdr f lay) <= dk_size d2).
+  { unfold d2, enddef_disk. rewrite dk_size_write.
+    change (new_header (f_hdr f) lay (enddef_numrecs f)) with (enddef_hdr f lay).
+    replace (0 <? Zlen (encode_header (enddef_hdr f lay))) with true by lia. lia. }
+  assert (W3 : dk_read d2 0 (hdr_len (enddef_hdr f lay)) = encode_header (enddef_hdr f lay)).
+  { unfold d2, enddef_disk.
+    change (new_header (f_hdr f) lay (enddef_numrecs f)) with (enddef_hdr f lay).
+    rewrite Hl. apply dk_read_write_0. }
+  unfold enddef_redef_disk. cbv zeta. fold d2.
+  destruct (h_vars (f_hdr f)) as [|v0 vs0] eqn:Ev; [split; [exact W1|split; [exact W2|exact W3]]|].
+  split; [apply do_fill_exists; exact W1|].
+  split. { pose proof (do_fill_size d2 (new_header (f_hdr f) lay (enddef_numrecs f)) lay
+                         (Zlen (h_vars oh)) (h_numrecs oh) (w_nprocs w)). lia. }
+  rewrite <- W3. apply dk_read_ext. intros x Hx.
+  apply do_fill_frame_extent; [exact Hnp|].
+  intros v Hv Hnf. change (new_header (f_hdr f) lay (enddef_numrecs f)) with (enddef_hdr f lay) in *.
+  split; [symmetry; exact (Hfl v Hv Hnf)|].
+  (* every new variable begins at or after begin_var >= hdr_len *)
+  pose proof (begins_lay_inv_redef oh (f_hdr f) ol lay _ _ ha ra Hwf A1 A3 ltac:(lia) Hra Hra4 Hinv Hext Hbeg)
+    as (Hlen & Hxs & Hbi & Hbv & Hle & Hbr4 & Hc & Hrs).
+  rewrite <- vsof_t3of in Hlen, Hbi, Hle, Hc.
+  destruct (wf_t3_lens _ (wf_t3of (f_hdr f) Hwf)) as [Hnn _]. rewrite <- vsof_t3of in Hnn.
+  assert (Hlen' : length (l_begins lay) = length (h_vars (f_hdr f))).
+  { rewrite Hlen. unfold vsof. apply map_length. }
+  destruct (new_var_facts (f_hdr f) (l_begins lay) (enddef_numrecs f) (Zlen (h_vars oh)) v Hlen'
+              (Zlen_nonneg _) Hv) as (j & Hj & Eb & _ & Evj & _).
+  assert (Evs : Zlen (vsof (f_hdr f)) = Zlen (h_vars (f_hdr f))) by (unfold vsof; apply Zlen_map).
+  pose proof (Zlen_nonneg (h_vars oh)) as Hn0.
+  pose proof (begins_redef_facts oh (f_hdr f) ol lay _ _ ha ra Hwf A1 A3 ltac:(lia) Hra Hra4 Hinv Hext Hbeg)
+    as (_ & _ & _ & _ & _ & Fx & Fvr & _ & _ & Frs0 & Frs & _).
+  unfold in_fill_extent. change (h_dims (enddef_hdr f lay)) with (h_dims (f_hdr f)).
+  replace (is_recvar (h_dims (f_hdr f)) v) with (fst (znth (vsof (f_hdr f)) j dvs)) by (rewrite Evj; reflexivity).
+  destruct (fst (znth (vsof (f_hdr f)) j dvs)) eqn:Ekj.
+  - intros (recno & Hrn & Hlo & _).
+    pose proof (contig_sel_index (vsof (f_hdr f)) (l_begins lay) (l_begin_rec lay) Hlen Hc j ltac:(lia) Ekj) as Enb.
+    pose proof (roff_nonneg (vsof (f_hdr f)) j Hnn).
+    assert (0 <= l_recsize lay * recno) by nia. lia.
+  - intros [Hlo _].
+    destruct (bi_sel_index false (vsof (f_hdr f)) (l_begins lay) (l_begin_var lay) Hlen Hnn Hbi) as [B1 _].
+    destruct (B1 j ltac:(lia) Ekj) as (B & _ & _). lia.
+Qed.
 (* ====================================================================== *)
 (** * F. Examples: a concrete session run with the interpreter              *)
 (* ====================================================================== *)
@@ -1287,6 +1634,135 @@ Example ex_exec_close_open :
   f_lay (file_at w3 0) = ex_lay1.
 Proof. vm_compute. repeat split; reflexivity. Qed.
 
+(* ---------- E on the instance: write data, redefine, enddef with arguments ---------- *)
+(* enddef; put two records of r and all of a; redef; new dim y = 3; new variables
+   c : int c(y) and s : short s(t, y), both fill mode; move unit 7 bytes *)
+Definition ex_ops_redef : list op :=
+  [ OEnddef 0;
+    OPut 0 true (mkacc 1 (FVara (Some [0; 0]) (Some [2; 5])) 3 false BTyped 7);
+    OPut 0 true (mkacc 0 (FVara (Some [0]) (Some [5])) 4 false BTyped 3);
+    ORedef 0; ODefDim 0 [121] 3;
+    ODefVar 0 [99] 4 [2]; ODefVar 0 [115] 3 [0; 2] ].
+Definition ex_wre : world := set_move_unit (run ex_wdef ex_ops_redef) 7.
+Definition ex_fre : filest := Eval vm_compute in file_at ex_wre 0.
+Definition ex_oh : hdr := Eval vm_compute in match f_old ex_fre with Some (oh, _) => oh | None => f_hdr ex_fre end.
+Definition ex_ea2 : enddef_args := mkeargs 100 0 0 64.
+Definition ex_lay2 : layout := mklayout 256 512 640 20 [512; 640; 532; 572; 652].
+
+Example ex_lookup_re : lookup_file ex_wre 0 = Some (0, ex_fre).
+Proof. vm_compute. reflexivity. Qed.
+
+(* every hypothesis of redef_enddef_disk *)
+Example ex_re_indef : f_indef ex_fre = true. Proof. reflexivity. Qed.
+Example ex_re_old : f_old ex_fre = Some (ex_oh, ex_lay1). Proof. reflexivity. Qed.
+Example ex_re_args : enddef_args_ok ex_ea2. Proof. unfold enddef_args_ok, ex_ea2; cbn; lia. Qed.
+Example ex_re_vlens : check_vlens (f_hdr ex_fre) = NC_NOERR. Proof. vm_compute. reflexivity. Qed.
+Example ex_re_align :
+  resolve_align (f_align ex_fre) ex_ea2 (Zlen (h_vars (f_hdr ex_fre)) - num_rec_vars ex_oh) false
+  = (4, 4, 64).
+Proof. vm_compute. reflexivity. Qed.
+Example ex_re_begins :
+  begins (f_hdr ex_fre) (e_h_minfree ex_ea2) (e_v_minfree ex_ea2) 4 64 (redef_old ex_oh ex_lay1)
+         (l_begin_rec (f_lay ex_fre)) = Some ex_lay2.
+Proof. vm_compute. reflexivity. Qed.
+Example ex_re_guard : fill_guard (Zlen (h_vars ex_oh)) (enddef_hdr ex_fre ex_lay2) = true.
+Proof. vm_compute. reflexivity. Qed.
+
+Definition ex_f2 : filest := enddef_file ex_fre ex_lay2.
+Definition ex_wdat2 : world :=
+  put_file (set_disk ex_wre (f_slot ex_fre) (enddef_redef_disk ex_wre ex_fre ex_oh ex_lay1 ex_lay2))
+           0 (Some ex_f2).
+
+Example ex_redef_enddef_eq : do_enddef ex_wre 0 ex_fre ex_ea2 = Some (ex_wdat2, NC_NOERR).
+Proof.
+  exact (redef_enddef_disk ex_wre 0 ex_fre ex_ea2 ex_oh ex_lay1 4 4 64 ex_lay2 ex_re_indef ex_re_old
+           ex_re_args ex_re_vlens ex_re_align ex_re_begins ex_re_guard).
+Qed.
+
+Example ex_exec_redef_enddef :
+  lookup_file (fst (exec_all ex_wre (OEnddefX 0 100 0 0 64))) 0 = Some (0, ex_f2) /\
+  snd (exec_all ex_wre (OEnddefX 0 100 0 0 64)) = [(0, NC_NOERR, []); (1, NC_NOERR, [])].
+Proof. vm_compute. split; reflexivity. Qed.
+
+(* the remaining hypotheses of redef_enddef_run_preserves *)
+Example ex_re_br : l_begin_rec (f_lay ex_fre) = l_begin_rec ex_lay1. Proof. reflexivity. Qed.
+Example ex_re_hdr_wf : hdr_wf (f_hdr ex_fre).
+Proof. apply hdr_wf_b. vm_compute. reflexivity. Qed.
+Example ex_re_hints :
+  0 <= env_h_align (f_align ex_fre) /\ 0 <= env_v_align (f_align ex_fre) /\
+  0 <= env_r_align (f_align ex_fre).
+Proof. vm_compute. repeat split; discriminate. Qed.
+Example ex_re_lay_inv : lay_inv (t3of ex_oh) ex_lay1.
+Proof.
+  assert (E : t3of ex_oh = t3of (f_hdr ex_fdef)) by (vm_compute; reflexivity). rewrite E.
+  exact (proj1 (begins_layout_ok (f_hdr ex_fdef) 0 0 512 4 ex_lay1 ex_new_hdr_wf ltac:(lia) ltac:(lia)
+                  ltac:(lia) eq_refl ltac:(lia) eq_refl ex_new_begins)).
+Qed.
+Example ex_re_extends : hdr_extends ex_oh (f_hdr ex_fre).
+Proof. exists (skipn 3 (t3of (f_hdr ex_fre))). vm_compute. reflexivity. Qed.
+Example ex_re_np : 1 <= w_nprocs ex_wre. Proof. vm_compute. discriminate. Qed.
+Example ex_re_unit : 1 <= w_move_unit ex_wre. Proof. vm_compute. discriminate. Qed.
+Example ex_re_numrecs : 0 <= enddef_numrecs ex_fre. Proof. vm_compute. discriminate. Qed.
+Example ex_re_slot : 0 <= f_slot ex_fre < Zlen (w_disks ex_wre).
+Proof. vm_compute. split; [discriminate|reflexivity]. Qed.
+Example ex_re_id : 0 <= 0 < Zlen (w_files ex_wre).
+Proof. vm_compute. split; [discriminate|reflexivity]. Qed.
+Example ex_re_wf_h2 : wf_hdr (enddef_hdr ex_fre ex_lay2) = true.
+Proof. vm_compute. reflexivity. Qed.
+
+Example ex_redef_enddef_run_preserves :=
+  redef_enddef_run_preserves ex_wre 0 ex_fre ex_ea2 ex_oh ex_lay1 ex_wdat2 ex_re_indef ex_re_old ex_re_br
+    ex_re_hdr_wf (proj1 ex_re_hints) (proj1 (proj2 ex_re_hints)) (proj2 (proj2 ex_re_hints))
+    ex_re_lay_inv ex_re_extends ex_re_np ex_re_unit ex_re_numrecs ex_re_slot ex_re_id
+    ex_redef_enddef_eq.
+
+Example ex_redef_enddef_preserves :=
+  redef_enddef_preserves ex_wre ex_fre ex_oh ex_lay1 ex_lay2 100 0 4 64 ex_re_hdr_wf ltac:(lia) ltac:(lia)
+    ltac:(lia) ltac:(lia) eq_refl ex_re_lay_inv ex_re_extends ex_re_begins ex_re_np ex_re_unit
+    ex_re_numrecs ex_re_wf_h2
+    (fill_len_ok_of_guard _ _ ex_re_wf_h2 ex_re_guard).
+
+(* the conclusion computed independently: a (20 bytes at 512, unmoved), both records of r
+   (10 bytes each, 572 + 10 r -> 640 + 20 r), b (no-fill, never written) - and the new
+   variables filled: c (int, 3 elements at 572), s (short, 3 elements at 652 + 20 r) *)
+Example ex_redef_bytes :
+  let d0 := get_disk ex_wre 0 in
+  let d3 := get_disk ex_wdat2 0 in
+  dk_read d3 512 20 = dk_read d0 512 20 /\
+  dk_read d3 640 10 = dk_read d0 572 10 /\
+  dk_read d3 660 10 = dk_read d0 582 10 /\
+  forallb (fun b => 0 <=? b) (dk_read d0 512 20 ++ dk_read d0 572 20) = true /\
+  dk_read d3 532 40 = dk_read d0 532 40 /\
+  dk_read d3 572 12 = flat_map (fun _ => [128; 0; 0; 1]) (zrange 0 3) /\
+  dk_read d3 652 6 = [128; 1; 128; 1; 128; 1] /\
+  dk_read d3 672 6 = [128; 1; 128; 1; 128; 1] /\
+  dk_read d3 0 256 = encode_header (enddef_hdr ex_fre ex_lay2).
+Proof. vm_compute. repeat split; reflexivity. Qed.
+
+(* ---------- D, truncation branch of do_close: a CDF-5 file without variables whose disk has
+   been extended beyond the header ---------- *)
+Definition ex_wnv0 : world := run (world0 2) [OCreate 1 5 1; ODefDim 1 [120] 4; OEnddef 1].
+Definition ex_fnv : filest := Eval vm_compute in file_at ex_wnv0 1.
+Definition ex_wnv : world := set_disk ex_wnv0 1 (dk_write (get_disk ex_wnv0 1) 200 [1; 2; 3]).
+
+Example ex_nv_file : znth (w_files ex_wnv) 0 None = Some ex_fnv /\ h_vars (f_hdr ex_fnv) = [].
+Proof. vm_compute. split; reflexivity. Qed.
+Example ex_nv_on_disk : hdr_on_disk ex_wnv ex_fnv.
+Proof. unfold hdr_on_disk. vm_compute. repeat split; try reflexivity. discriminate. Qed.
+
+Example ex_nv_close_open :=
+  close_open_same_header ex_wnv 0 ex_fnv 0 eq_refl eq_refl (proj1 ex_nv_file)
+    ltac:(vm_compute; reflexivity) ex_nv_on_disk ltac:(vm_compute; discriminate)
+    ltac:(vm_compute; reflexivity) ltac:(vm_compute; split; [discriminate|reflexivity])
+    ltac:(vm_compute; split; [discriminate|reflexivity]).
+
+Example ex_nv_truncated :
+  dk_size (get_disk ex_wnv 1) = 203 /\
+  dk_size (get_disk (close_world ex_wnv 0 ex_fnv) 1) = hdr_len (f_hdr ex_fnv) /\
+  hdr_len (f_hdr ex_fnv) = 68 /\
+  f_hdr (file_at (run ex_wnv [OClose 1; OOpen 1 0]) 1) = hdr_content (f_hdr ex_fnv).
+Proof. vm_compute. repeat split; reflexivity. Qed.
+
 Print Assumptions do_enddef_new_eq.
 Print Assumptions do_enddef_new_inv.
 Print Assumptions enddef_writes_header.
@@ -1298,3 +1774,8 @@ Print Assumptions redef_enddef_disk.
 Print Assumptions redef_enddef_inv.
 Print Assumptions redef_enddef_preserves_gen.
 Print Assumptions redef_enddef_preserves_fixed.
+Print Assumptions rec_slot_fits.
+Print Assumptions redef_enddef_preserves.
+Print Assumptions redef_enddef_run_preserves.
+Print Assumptions ex_redef_enddef_run_preserves.
+Print Assumptions ex_enddef_close_open.
